@@ -166,6 +166,12 @@ class PDFLayoutAnalyzer(PDFTextDevice):
                 shape = shape[:-2] + "h"
                 pts.pop()
 
+            # Drop a redundant "h" on a path that is already closed with "h"
+            # (e.g. a rectangle "re" painted with a closing operator: s, b, b*)
+            while shape[-2:] == "hh":
+                shape = shape[:-1]
+                pts.pop()
+
             if shape in {"mlh", "ml"}:
                 # single line segment
                 #
